@@ -160,7 +160,7 @@ def check(run):
                     small = J.shrink(cc, still_e)
                     a2 = harness.run_jsonl(binpath, [J.j_engine(small)])[0]
                     run.violation("; ".join(J.judge_engine(small, a2))[:700],
-                                  {"engine": True, "program": J.engine_program(small), "case": J.case_json(small), "implementation": a2,
+                                  {"engine": True, "wname": small["wname"], "program": J.engine_program(small), "case": J.case_json(small), "implementation": a2,
                                    "expected_choice": J.expected(small),
                                    "contradicts": "theorem C15_inorder in coq/theories/Join/Props.v, through the Engine's join routing"})
         if ms is not None and c["ops"]:
@@ -182,7 +182,7 @@ def replay(run, path):
     ok, bindir, lg = harness.build("vp-join")
     c = J.case_from_json(r["case"])
     if r.get("engine"):
-        c["wname"] = dict((w, n) for n, w in J.ENGINE_WINDOWS)[c["window"]]
+        c["wname"] = r.get("wname", dict((w, n) for n, w in J.ENGINE_WINDOWS if n)[c["window"]])
         ans = harness.run_jsonl(os.path.join(bindir, "vp-join"), [J.j_engine(c)])[0]
         fails = J.judge_engine(c, ans)
     else:
